@@ -24,6 +24,7 @@ func checkC04Typed(c *Ctx, n int) {
 		portTag := `long:"port" short:"p"`
 		var env []EnvVar
 		needCmd, needReq, rootOptional := false, false, true
+		longName := ""
 		opts := flags.Options(0)
 		causes := []cause{
 			{"unknown long option", []string{"--nosuch"}, flags.ErrUnknownFlag},
@@ -59,6 +60,8 @@ func checkC04Typed(c *Ctx, n int) {
 			needCmd, rootOptional = true, false
 		case "help requested", "help requested behind other options":
 			opts |= flags.HelpFlag
+			// (a long name that leaves from a dozen down to no columns for the descriptions)
+			longName = strings.Repeat("n", 58+r.Intn(20))
 		}
 		// harmless tokens around the fault
 		argv := append([]string{}, cz.argv...)
@@ -75,6 +78,9 @@ func checkC04Typed(c *Ctx, n int) {
 			{Name: "Mode", Exported: true, Kind: "v", Ty: "str", Tag: `long:"mode" choice:"a" choice:"b"`},
 			{Name: "Cb", Exported: true, Kind: "v", Ty: "Fstr!", Tag: `long:"cb"`, Cb: 10},
 		}}
+		if longName != "" {
+			root.Fields = append(root.Fields, FieldDesc{Name: "Wide", Exported: true, Kind: "v", Ty: "bool", Tag: quoteTag("long", longName) + ` description:"a description of some length"`})
+		}
 		if needReq {
 			root.Fields = append(root.Fields, FieldDesc{Name: "Req", Exported: true, Kind: "v", Ty: "str", Tag: `long:"req" required:"true"`})
 		}
@@ -122,5 +128,4 @@ func checkC04Typed(c *Ctx, n int) {
 			c.Check("error-text-is-written-exactly-once-and-only-with-PrintErrors", true, "", nil, "", "")
 		})
 	}
-	_ = strings.TrimSpace
 }
